@@ -92,7 +92,7 @@ CHECKS = {
   design="DESIGN.md §5 C17"),
  "C18": dict(
   technique="runtime monitor: metamorphic oracle over executions - each generated program is run as printed and after every single meaning-free layout rewrite (and random combinations); observed parse tree, final value on both stores and host-call sequence are compared; where a rewrite is admissible is decided by the reference lexer and reference parser, not by the code under test",
-  text="Every small AST, random larger programs and the bounded restart loops of C01 are rewritten at every position: widen / replace / remove blank runs, insert a blank or an annotation between adjacent tokens, annotation or comment line inside a blank run, trailing blanks before line breaks and at the end, comment lines after line breaks and at the start, parentheses around every operand, effect-free side-effect blocks added after every value or group, before every plain operand that follows a binary operator or a comma, as the first thing inside a group or expression literal, and dropped where present, plus random combinations of 2..7 rewrites. The rewritten text must parse to the same tree (modulo trivia, added groups, added blocks), produce the same value and resolve-call sequence on both stores, and still terminate (a program that finished in n steps and is still running after 20 000 >= 40 n once rewritten is a violation). Held on the programs and rewrite positions observed. The repository's own tests/scripts/*.garnish files (whole, and cut into prefixes / suffixes) are part of the corpus.",
+  text="Every small AST, random larger programs and the bounded restart loops of C01 are rewritten at every position: widen / replace / remove blank runs, insert a blank or an annotation between adjacent tokens, annotation or comment line inside a blank run, trailing blanks before line breaks and at the end, comment lines after line breaks and at the start, parentheses around every operand, effect-free side-effect blocks added after every value, group or finished suffix operation, before every plain operand that follows a binary operator or a comma, as the first thing inside a group or expression literal, and dropped where present, plus random combinations of 2..7 rewrites. The rewritten text must parse to the same tree (modulo trivia, added groups, added blocks), produce the same value and resolve-call sequence on both stores, and still terminate (a program that finished in n steps and is still running after 20 000 >= 40 n once rewritten is a violation). Held on the programs and rewrite positions observed. The repository's own tests/scripts/*.garnish files (whole, and cut into prefixes / suffixes) are part of the corpus.",
   note="trusts: the reference lexer/parser as the judge of where blanks may be added or removed; programs with side-effect blocks have no reference tree and only get rewrites that need no confirmation plus the structural ones",
   design="DESIGN.md §5 C18"),
  "C19": dict(
